@@ -7,13 +7,22 @@ package main
 
 import (
 	"fmt"
+	"os"
 	"sort"
+	"strings"
 	"sync"
 	"time"
 )
 
+var dumped int
+
+var (
+	querySites   map[string]int
+	querySitesMu sync.Mutex
+)
+
 func (m *Machine) addPC(c *Term) {
-	if c.IsTrue() {
+	if c.IsTrue() || m.pcSet[c] {
 		return
 	}
 	m.pc = append(m.pc, c)
@@ -21,6 +30,7 @@ func (m *Machine) addPC(c *Term) {
 		m.pcSet = map[*Term]bool{}
 	}
 	m.pcSet[c] = true
+	m.recordFact(c)
 	if m.lastModel != nil {
 		if EvalTerm(c, m.lastModel, map[*Term]uint64{}) != 1 {
 			m.lastModel = nil
@@ -44,11 +54,36 @@ func (m *Machine) feasible(c *Term) (bool, Model, SatResult) {
 	if m.pcSet[m.st.BNot(c)] {
 		return false, nil, Unsat
 	}
+	if m.pcSet[c] {
+		return true, m.lastModel, Sat
+	}
+	// interval facts implied by the path condition (sound, incomplete)
+	switch m.implied(c) {
+	case -1:
+		m.rangeDecided++
+		return false, nil, Unsat
+	case 1:
+		m.rangeDecided++
+		return true, m.lastModel, Sat
+	}
 	if m.lastModel != nil && EvalTerm(c, m.lastModel, map[*Term]uint64{}) == 1 {
 		return true, m.lastModel, Sat
 	}
 	m.syncSolver()
 	m.queriesFeas++
+	if querySites != nil {
+		querySitesMu.Lock()
+		querySites[m.site()]++
+		if dq := os.Getenv("SYMGO_DUMPQ"); dq != "" && strings.Contains(m.site(), dq) && dumped < 6 {
+			dumped++
+			fmt.Printf("QUERY at %s: %s\n   pc:", m.site(), c.String())
+			for _, p := range m.pc {
+				fmt.Printf("\n      %s", p.String())
+			}
+			fmt.Println()
+		}
+		querySitesMu.Unlock()
+	}
 	r, model := m.sol.Check([]*Term{c}, true, m.st.Vars)
 	switch r {
 	case Sat:
@@ -279,6 +314,8 @@ func (m *Machine) resetPath(h *Harness, prefix []int64, model Model) {
 	m.trace = m.trace[:0]
 	m.alts = nil
 	m.pc = nil
+	m.facts = nil
+	m.rangeMemo = nil
 	m.pcSet = nil
 	m.asserted = 0
 	m.lastModel = model
